@@ -387,3 +387,45 @@ impl Histo {
         self.0.lock().unwrap().len()
     }
 }
+
+/// Per-thread bag of violations: exact count per class, first few cases kept.
+#[derive(Default)]
+pub struct VioBag(pub BTreeMap<String, (u64, Vec<Violation>)>);
+
+impl VioBag {
+    pub fn push(&mut self, v: Violation) {
+        let key = format!("{}|{}", v.clause, v.tags.join(","));
+        let e = self.0.entry(key).or_insert((0, vec![]));
+        e.0 += 1;
+        if e.1.len() < KEEP_PER_CLASS {
+            e.1.push(v);
+        }
+    }
+    pub fn merge(&mut self, o: VioBag) {
+        for (k, (n, vs)) in o.0 {
+            let e = self.0.entry(k).or_insert((0, vec![]));
+            e.0 += n;
+            for v in vs {
+                if e.1.len() < KEEP_PER_CLASS {
+                    e.1.push(v);
+                }
+            }
+        }
+    }
+    pub fn len(&self) -> u64 {
+        self.0.values().map(|e| e.0).sum()
+    }
+    pub fn drain_into(self, rep: &Reporter) {
+        for (_, (n, vs)) in self.0 {
+            let k = vs.len() as u64;
+            for (i, v) in vs.into_iter().enumerate() {
+                // the first kept case carries the remainder of the class count
+                if i == 0 {
+                    rep.report_n(v, n - (k - 1));
+                } else {
+                    rep.report(v);
+                }
+            }
+        }
+    }
+}
